@@ -61,9 +61,18 @@ Fixpoint scope_nest (outer : option N) (ps : list N) : option N :=
   match ps with [] => outer | p :: r => scope_nest (scope_enter outer p) r end.
 Definition subset_bits (a b : N) : bool := N.eqb (N.land a b) a.
 
+(* evaluate(code, permission=arg) inside nested permission scopes: which permission is enforced
+   ([eval_perm] is regenerated from execution.py) and whether the program is refused. *)
+Definition evaluate_accepts (tb : N -> list N) (arg : option N) (scopes : list N) (t : ast) : bool :=
+  match eval_perm arg (scope_nest None scopes) with
+  | None => true
+  | Some bits => validate tb (perm_of_bits bits) t
+  end.
+
 (* --- wire format -------------------------------------------------------------------------
    case   ::= (0 bits ast)            validate with permission bits            -> (0 b)
             | (1 (p1 p2 ...))         nested permission scopes, outermost first -> (1 (eff?))
+            | (2 (arg?) (p1 ...) ast) evaluate with argument inside scopes       -> (2 accepted)
    ast    ::= (k kid ...)  *)
 Fixpoint d_ast (fuel : nat) (t : tr) : option ast :=
   match fuel with
@@ -88,6 +97,11 @@ Definition run (c : tr) : tr :=
       match dlist dN ps with
       | Some l => L [I 1%Z; eopt eN (scope_nest None l)]
       | None => ebad
+      end
+  | L [I 2%Z; arg; ps; a] =>
+      match dopt dN arg, dlist dN ps, d_ast 200 a with
+      | Some ar, Some l, Some t => L [I 2%Z; ebool (evaluate_accepts tbl ar l t)]
+      | _, _, _ => ebad
       end
   | _ => ebad
   end.
